@@ -801,6 +801,13 @@ class C04(EvalProp):
             path = r.choice(['$.prices.%s()' % ag, '$.nested[0].%s()' % ag, '$.nested[*].%s()' % ag, '$.prices[*].%s()' % ag, '$.prices.%s().%s()' % (ff, ag),
                              '$.nested.%s()' % ag, '$[?(@.%s() > 1)]' % ag, '$.prices.%s()' % ff, '$..prices.%s()' % ag])
             cs.append(Case('fa%d' % i, path.encode(), [doc, doc], [ff], [ag], r.random() < 0.2, meta={'nsteps': 2, 'family': 'functions-on-document-parts'}))
+        # members of foreign Go types (typed maps and slices, pointers to containers, undecoded json.RawMessage, ...) with paths that
+        # step into them: whether the step succeeds or fails, the member stays what it was
+        for j, kind in enumerate(sorted(core.KINDS)):
+            x = ('x', kind)
+            for i, (path, doc) in enumerate([(b'$.a.b', ('o', [(b'a', x)])), (b'$.a[0]', ('o', [(b'a', x)])), (b'$.*.a', ('o', [(b'k', x), (b'm', ('o', [(b'a', ('n', 1.0))]))])),
+                                             (b'$[0].b', ('a', [x])), (b'$[*].b[0]', ('a', [x, x])), (b'$.a.zz9', ('o', [(b'a', x)]))]):
+                cs.append(Case('fk%d_%d' % (j, i), path, [doc, doc], acc=(i + j) % 4 == 0, meta={'nsteps': 2, 'family': 'foreign-members'}))
         return cs
 
     def project(self, o, c):
@@ -1042,6 +1049,26 @@ class C17(EvalProp):
                               expected={'P': want, 'X': hx(tail.encode('utf-8'))}, observed={'P': gb.get('P'), 'X': gb.get('X'), 'model': mb.get('P')})
             res.nontrivial.add(b.path)
             res.dist['garbage-after-path'] += 1
+        # the grammar of the PINNED tree (coq/GrammarPinned.v, the one the theorems were proved for): the implementation must
+        # accept and reject as that grammar does.  On the current tree it is the regenerated grammar (GrammarPinnedEq.v), so this
+        # repeats the main comparison; when jsonpath.peg and the generated parser are changed together the regenerated model
+        # follows them, and this comparison is what exhibits a string whose acceptance changed
+        pcs = exhaustive_string_cases(1800 if ctx.quick else None) + string_cases(ctx, g, ctx.n(2500, 30000) * budget_scale, prefix='pg')
+        for c in pcs:
+            c.id = 'pin_' + c.id
+            c.pinned = True
+        go, mo = both_sides(pcs)
+        for c, g_, m in zip(pcs, go, mo):
+            res.evaluations += 1
+            hp = harness_problem(g_) or harness_problem(m)
+            if hp:
+                res.violation('broken-correspondence', 'harness:' + hp[:60], hp, c)
+                continue
+            if g_.get('P', '') != m.get('P', ''):
+                res.disagreements_checked += 1
+                res.violation('concrete', sig_of(c, 'pinned-grammar'), 'Parse(%r) differs from what the grammar of the pinned tree says' % (c.path,), c,
+                              expected=m.get('P', ''), observed=g_.get('P', ''))
+            res.dist['pinned-grammar'] += 1
 
     def on_go(self, res):
         def f(c, g):
@@ -1126,6 +1153,25 @@ class C11(Prop):
             for i in idxs:
                 cases.append(Case('i%d_%d' % (n, i), b'$[%d]' % i, [('a', [('n', float(k)) for k in range(n)])]))
                 expect.append(py_index_ref(n, i))
+        # the same numbers in other spellings: a sign before zero, a plus sign, leading zeros — a bound is the NUMBER written
+        # (`-0` is 0: it does not count from the end; `010` is ten)
+        spellings = ['-0', '+0', '-00', '00', '+1', '01', '-01', '+2', '002', '-2', '010', '-010', '+03', '08', '-09', '']
+        for k in range((400 if ctx.quick else 4000) * budget_scale):
+            n = r.randint(0, 12)
+            arr = [('a', [('n', float(i)) for i in range(n)])]
+            if r.random() < 0.3:
+                sp = r.choice(spellings[:-1])
+                cases.append(Case('zi%d' % k, ('$[%s]' % sp).encode(), arr))
+                cases[-1].keyc = [(1, [ord(ch) for ch in sp])]
+                expect.append(py_index_ref(n, int(sp)))
+                continue
+            ss, se = r.choice(spellings), r.choice(spellings)
+            st = r.choice(spellings + ['absent', 'absent'])
+            text = '$[%s:%s%s]' % (ss, se, '' if st == 'absent' else ':' + st)
+            cases.append(Case('zs%d' % k, text.encode(), arr))
+            cases[-1].keyc = [(5, [ord(ch) for ch in ss], [ord(ch) for ch in se], None if st == 'absent' else [ord(ch) for ch in st])]
+            val = lambda x: None if x == '' else int(x)
+            expect.append(py_slice_ref(n, val(ss), val(se), 1 if st in ('absent', '') else int(st)))
         # the same subscript node applied to several arrays in one retrieval (and twice by one parsed function)
         g2 = gens.G(ctx.seed * 3 + seed_offset + 11)
         for k in range(ctx.n(600, 6000) * budget_scale):
@@ -1620,6 +1666,11 @@ class C07(Prop):
             else:
                 steps = g.gen_path(d, 3, 0.0)
                 path = gens.render_path(steps)
+            if r.random() < 0.15:
+                # the members handed to an aggregate function (which may well depend on their order) come in the same order
+                path = r.choice([b'$.*', b'$[*]', b'$..*', b'$[?(@)]', b'$.*.*', b"$..['a','b']", b'$..a', b'$[?(@.a || @.b)]']) + r.choice([b'.arr()', b'.first()', b'.arr().id()', b'.arr().tn()'])
+                cases.append(Case('p%d' % i, path, docs, ['id', 'tn'], ['arr', 'first'], meta={'perm_idx': [0, 2, 3, 5, 6, 7, 8, 9], 'nkeys': len(d[1]), 'family': 'members-to-aggregate'}))
+                continue
             cases.append(Case('p%d' % i, path, docs, meta={'perm_idx': [0, 2, 3, 5, 6, 7, 8, 9], 'nkeys': len(d[1])}))
             if i % 4 == 0:
                 # the same sub-container referenced from several parents (a document assembled in Go code)
@@ -2046,6 +2097,34 @@ class C09(Prop):
             c.keyc = [(8, ispec, oc, [ord(ch) for ch in lit])]
             want[c.id] = 'ok:[' + ','.join(core.doc_render(v) for v in kept) + ']' if kept else 'fail'
             cases.append(c)
+            if r.random() < 0.35:
+                # the same operand against several literals joined by || (or &&): the union (intersection) of the single
+                # comparisons, in both decodings of the members (a chain of == on one name is a membership test)
+                eqs = r.random() < 0.7
+                parts = []
+                for _j in range(r.randint(2, 4)):
+                    fv2 = r.choice(pool) + r.choice([0, 0, 0, 0.5])
+                    lit2 = r.choice([repr(fv2), '%g' % fv2])
+                    parts.append((0 if eqs else r.randrange(6), lit2, float(lit2)))
+                disj = eqs or r.random() < 0.6
+                text2 = '$[?(' + ('||' if disj else '&&').join('@' + itext + ['==', '!=', '<', '<=', '>', '>='][o_] + l_ for o_, l_, _f in parts) + ')]'
+                kept2 = []
+                for x in chain_children(body):
+                    got = inner_reach(ispec, [x])
+                    vs = []
+                    for o_, l_, f_ in parts:
+                        if got and got[0][0] in 'nj':
+                            a = got[0][1] if got[0][0] == 'n' else float(got[0][1])
+                            vs.append([a == f_, a != f_, a < f_, a <= f_, a > f_, a >= f_][o_])
+                        else:
+                            vs.append(o_ == 1)
+                    if (any(vs) if disj else all(vs)):
+                        kept2.append(x)
+                c2 = Case('cu%d' % i, text2.encode('utf-8'), [body], meta={'family': 'coq-comparison-filter', 'nsteps': 1})
+                bqs = [('c', ispec, o_, [ord(ch) for ch in l_]) for o_, l_, _f in parts]
+                c2.keyc = [(10, [[b] for b in bqs] if disj else [bqs])]
+                want[c2.id] = 'ok:[' + ','.join(core.doc_render(v) for v in kept2) + ']' if kept2 else 'fail'
+                cases.append(c2)
         go, mo = both_sides(cases)
         for c, g_, m in zip(cases, go, mo):
             res.evaluations += 1
@@ -2556,6 +2635,28 @@ class C12(Prop):
         g = gens.G(ctx.seed * 37 + 12 + seed_offset)
         n = ctx.n(6000, 60000) * budget_scale
         plain = mk_eval_cases(g, n, 'c', funcs=0.5, acc=0.0, jnum=0.15, filter_heavy=0.5)
+        # the same path written without its `$` when it starts with a bracket (a filter first: its operands are built while
+        # nothing is parked on the parser's stack)
+        r = g.r
+        extra = []
+        for c in plain:
+            if c.path.startswith(b'$[') and not c.path.startswith(b'$[*') and len(extra) < n // 10 and r.random() < 0.6:
+                extra.append(Case('r' + c.id, c.path[1:], c.docs, c.filters, c.aggs, False, c.nocfg, c.mode, dict(c.meta, family='rootless-bracket')))
+        # chains of functions with an aggregate at both ends: agg, one or more filter functions, agg (in the main path and inside
+        # a filter operand) — every function must see plain values in both modes
+        for i in range(max(60, n // 40)):
+            nums = [('n', float(r.randint(0, 9))) for _ in range(r.randint(1, 4))]
+            body = ('a', nums) if r.random() < 0.5 else ('o', list(zip(r.sample(gens.KEY_POOL[:8], len(nums)), nums)))
+            doc = ('o', [(b'v', body), (b'w', ('a', [('o', [(b'b', body)]), ('o', [(b'b', ('a', [('n', 1.0)]))])]))])
+            a1, a2 = r.choice(['amax', 'first', 'arr', 'cnt']), r.choice(['first', 'cnt', 'arr', 'amax'])
+            fs = [r.choice(['twice', 'id', 'wrap', 'relay']) for _ in range(r.randint(1, 3))]
+            chain = '.%s()' % a1 + ''.join('.%s()' % f for f in fs) + '.%s()' % a2 + ('.%s()' % r.choice(['id', 'twice']) if r.random() < 0.3 else '')
+            if r.random() < 0.6:
+                text = '$.v%s%s' % (r.choice(['.*', '[*]', '', '..*']), chain)
+            else:
+                text = '$.w[?(@.b%s%s %s %d)]' % (r.choice(['.*', '[*]', '']), chain, r.choice(['>=', '==', '<', '!=']), r.randint(0, 4))
+            extra.append(Case('fa%d' % i, text.encode(), [doc], sorted(set(fs + ['id', 'twice'])), sorted({a1, a2}), False, False, 'eval', {'family': 'agg-fun-agg', 'nsteps': 4}))
+        plain += extra
         plain += load_corpus(self.id, ctx.root) if seed_offset == 0 else []
         for c in plain:
             c.acc = False
@@ -3577,6 +3678,25 @@ class C19(Prop):
                 d = r.choice([doc, doc2])
                 ops.append((dict(op='retrieve', path_hex=hx(path), doc=core.doc_go(d), mutate=False, **cfg), d))
             hists.append((ops, True))
+        # a user function that PANICS in the middle of a retrieval (the caller recovers, as the runner does): whatever the library
+        # had borrowed at that moment, later calls — among them retrievals that keep several of its buffers in use at once
+        # (a filter inside a filter operand beside a comparison) — behave as in a fresh history
+        doc3 = ('a', [('o', [(b'a', ('n', 2.0)), (b'b', ('a', [('o', [(b'c', ('n', 4.0))])]))]), ('o', [(b'a', ('n', 5.0)), (b'b', ('a', [('o', [(b'c', ('n', 9.0))])]))]),
+                      ('o', [(b'a', ('n', 7.0)), (b'b', ('a', [('o', [(b'c', ('n', 5.0))]), ('o', [(b'c', ('n', 1.0))])]))]), ('o', [(b'a', ('n', 0.0)), (b'b', ('a', []))])])
+        nest_probes = [b'$[*][?(@.c > 3)]', b'$[?(@.a > 1 && @.b[?(@.c > 3)])].a', b'$[?(@.b[?(@.c > 3)] && @.a > 1)].a', b'$[?(@.b[?(@.c > 3 && @.c < 9)])].a',
+                       b'$[?(@.b[?(@.c == $[0].a.twice())])].a', b'$..[?(@.c)].c', b'$[?(@.b.cnt() > 0 && @.b[?(@.c > 4)])].a', b'$[*].b[?(@.c > $[0].a)].c', b'$[*].b.cnt()']
+        for i in range(max(24, n // 40)):
+            ops = []
+            pcfg = {'filters': ['id', 'twice'], 'aggs': ['apanic', 'cnt'], 'acc': r.random() < 0.3, 'nocfg': False}
+            for _ in range(r.randint(1, 3)):
+                ppath = r.choice([b'$.b.apanic()', b'$.*.apanic()', b'$[?(@.b.apanic() > 1)]', b'$.b[*].apanic().id()', b'$.c.apanic()', b'$..a.apanic()'])
+                ops.append((dict(op='retrieve', path_hex=hx(ppath), doc=core.doc_go(doc), mutate=False, **pcfg), doc))
+                if r.random() < 0.3:
+                    ops.append((dict(op='retrieve', path_hex=hx(r.choice(LEAK_PROBES)[0]), doc=core.doc_go(doc), mutate=False, filters=[], aggs=[], acc=False, nocfg=True), doc))
+            for _ in range(r.randint(2, 4)):
+                cfg = r.choice([{'filters': ['id', 'twice'], 'aggs': ['cnt', 'first'], 'acc': False, 'nocfg': False}, {'filters': ['twice'], 'aggs': ['cnt'], 'acc': r.random() < 0.3, 'nocfg': False}])
+                ops.append((dict(op='retrieve', path_hex=hx(r.choice(nest_probes)), doc=core.doc_go(doc3), mutate=False, **cfg), doc3))
+            hists.append((ops, True))
         # several Configs handed to one call (only the first is documented to count), then the FIRST Config object used again
         # alone: functions of the later Configs must not have leaked into it, whether the first call succeeded or failed
         for i in range(max(30, n // 15)):
@@ -3641,6 +3761,8 @@ class C19(Prop):
                 continue
             o = gu.get('O0', gu.get('P', ''))
             alone[k] = o
+            if b'apanic' in mc.path:
+                continue        # a panicking user function is outside the model (its functions return a value or fail); compared with the call alone only
             if mu.get('P') == 'ok':
                 want = '%s|%s' % (mu.get('R0', ''), mu.get('C0', ''))
             else:
